@@ -8,7 +8,7 @@ from numbers_parser.constants import DurationStyle, DurationUnits
 from pysym.api import BoolDom, Cases, Harness, IntDom, StrDom, assume, concretize, cover
 
 NUMERIC = ["HH", "H", "hh", "h", "k", "kk", "K", "KK", "mm", "m", "ss", "s", "d", "dd", "M", "MM", "yyyy", "yy", "y",
-           "DDD", "DD", "D", "S", "SS", "SSS", "SSSS", "SSSSS", "a", "F"]
+           "DDD", "DD", "D", "S", "SS", "SSS", "SSSS", "SSSSS", "a", "F", "W", "ww"]
 TIME_ONLY = ["HH", "H", "hh", "h", "k", "kk", "K", "KK", "mm", "m", "ss", "s", "S", "SS", "SSS", "SSSS", "SSSSS", "a"]
 DIM = [31, 28, 31, 30, 31, 30, 31, 31, 30, 31, 30, 31]
 
@@ -36,12 +36,19 @@ def h14a_directive(field, year, month, day, hour, minute, second, micro):
     h12 = hour % 12
     leap = year % 4 == 0 and (year % 100 != 0 or year % 400 == 0)
     yday = sum(DIM[:month - 1]) + day + (1 if (leap and month > 2) else 0)
-    want = {"HH": hour, "H": hour, "hh": 12 if h12 == 0 else h12, "h": 12 if h12 == 0 else h12,
+    # proleptic Gregorian ordinal by the textbook year count (independent of the engine's era-based calendar model)
+    ym = year - 1
+    jan1_wd = (365 * ym + ym // 4 - ym // 100 + ym // 400) % 7          # weekday of 1 January, Monday = 0
+    wd1 = (jan1_wd + yday - day) % 7                                     # weekday of the 1st of this month
+    first_monday = (7 - jan1_wd) % 7                                     # 0-based day of year of the first Monday
+    want = {"W": (day + wd1 - 1) // 7,      # Monday-based week of the month, the week holding the 1st is week 0
+            "ww": 0 if yday - 1 < first_monday else (yday - 1 - first_monday) // 7 + 1,
+            "HH": hour, "H": hour, "hh": 12 if h12 == 0 else h12, "h": 12 if h12 == 0 else h12,
             "k": 24 if hour == 0 else hour, "kk": 24 if hour == 0 else hour, "K": h12, "KK": h12,
             "mm": minute, "m": minute, "ss": second, "s": second, "d": day, "dd": day, "M": month, "MM": month,
             "yyyy": year, "yy": year % 100, "DDD": yday, "DD": yday, "D": yday,
             "F": (day - 1) // 7 + 1}        # how many times this weekday has occurred in the month so far
-    width = {"HH": 2, "hh": 2, "kk": 2, "KK": 2, "mm": 2, "ss": 2, "dd": 2, "MM": 2, "yy": 2, "yyyy": 4, "DDD": 3, "DD": 2}
+    width = {"HH": 2, "hh": 2, "kk": 2, "KK": 2, "mm": 2, "ss": 2, "dd": 2, "MM": 2, "yy": 2, "yyyy": 4, "DDD": 3, "DD": 2, "ww": 2}
     if field in want:
         assert n == want[field]
         if field in width:
@@ -262,7 +269,7 @@ HARNESSES = [
             dict(field=Cases(NUMERIC), year=IntDom(), month=IntDom(), day=IntDom(), hour=IntDom(), minute=IntDom(), second=IntDom(),
                  micro=IntDom()),
             bounds="clock directives x all hours, minutes, seconds, microseconds; calendar directives x all valid dates of years 1000..9999 (symbolic)",
-            outside=["weekday/month names, W, ww, G", "locale",
+            outside=["weekday/month names, G", "locale",
                      "years < 1000 (platform-dependent %Y padding)"],
             stubs=["datetime model: exact integer calendar arithmetic; strftime per the C standard in the C locale"]),
     _scan(0), _scan(1), _scan(2), _scan(3), _scan(4),
